@@ -50,3 +50,7 @@ TABLE["C06"] = dict(engine="component", technique="property-based testing: Hypot
 TABLE["C05"] = dict(engine="component", technique="property-based testing: Hypothesis-generated hostile offer names, zip member names, --output-file/--accept-file configurations and pre-existing objects against the real Receiver offer path on the real filesystem; sandbox snapshot-diff oracle against a reference destination computed from the statement",
     text="The real Receiver._parse_offer code path (destination decision, permission prompt, .tmp handling, zip extraction) runs with a fake wormhole and record pipe in a fresh sandbox base/outer/cwd full of decoys; a before/after snapshot (kind, content hash, mode) of the whole sandbox is compared with what the statement allows. One genuine defect is recorded as a known finding (a pre-existing <dest>.tmp is clobbered).",
     note=COMP_NOTE + " Real filesystem under /verif/scratch (removed per case); the check runs as root.")
+
+TABLE["C07"] = dict(engine="simworld", technique="property-based testing: Hypothesis-generated contender topologies (listeners, unreachable hints, relay, rogues of 8 kinds, late connect()) with byte-by-byte tape scheduling of every handshake on the simulated network; oracle = one link / two ends / go only after the right handshake / losers shut down at resolution / deadline",
+    text="Real TransitSender.connect()/TransitReceiver.connect(), real endpoints, the real transit relay, all on the simulated network where the tape decides when each attempt completes and how many bytes move; a late key-holding prober checks that nothing is confirmed after connect() resolved.",
+    note=SIM_NOTE)
